@@ -274,6 +274,11 @@ func (f *File) enterWriteMode() error {
 			if err := f.writeBuf.Truncate(0); err != nil {
 				return err
 			}
+
+			// Loading the existing content left the cursor behind it; the emptied buffer starts at zero, also when appending
+			if _, err := f.writeBuf.Seek(0, io.SeekStart); err != nil {
+				return err
+			}
 		}
 
 		if !f.flags.Append {
